@@ -23,11 +23,13 @@ pub const ALPHABET: [&[u8]; 20] = [
 ];
 
 /// Further troublesome symbols used beyond the alphabet named in the property: Unicode white
-/// space of several kinds, other shell metacharacters, C1 controls, lone continuation bytes.
-pub const EXTRA: [&[u8]; 28] = [
+/// space of several kinds, other shell metacharacters, C1 controls, lone continuation bytes, multi-byte sequences cut short, a UTF-16 surrogate encoded as UTF-8.
+pub const EXTRA: [&[u8]; 33] = [
     "\u{a0}".as_bytes(), "\u{3000}".as_bytes(), "\u{2003}".as_bytes(), "\u{85}".as_bytes(), "\u{2028}".as_bytes(),
     "\u{1680}".as_bytes(), "\u{feff}".as_bytes(), "\u{fffd}".as_bytes(), b"\r", b"\x0b", b"\x0c", b"\x1b", b"\x01", b"|", b"&", b";",
     b"<", b">", b"(", b")", b"{", b"}", b"[", b"]", b"%", b"+", b"\x80", b"\xc3",
+    // multi-byte sequences cut short (a name truncated inside a character)
+    b"\xf0\x9f\x98", b"\xf0\x9f", b"\xe2\x82", b"\xc5", b"\xed\xa0\x80",
 ];
 
 fn strings_upto(len: usize) -> Vec<B> {
